@@ -2013,7 +2013,20 @@ def impl_t1puts(data_: bytes) -> str:
     for cid, name in res:
         try:
             name.encode("utf-8")
-            ok = not (name.startswith("b'") or name.startswith('b"'))
+            ok = True
+            if name.startswith("b'") or name.startswith('b"'):
+                # `literal_name` returns str(bytes) - the repr - for a name that is not UTF-8; a genuine name may also
+                # begin with b' (e.g. /b'd): it is the repr only if it reads back as bytes that are NOT valid UTF-8
+                import ast as _ast
+                try:
+                    raw = _ast.literal_eval(name)
+                    if isinstance(raw, bytes):
+                        try:
+                            raw.decode("utf-8")
+                        except UnicodeDecodeError:
+                            ok = False
+                except (ValueError, SyntaxError):
+                    pass
         except UnicodeEncodeError:
             ok = False
         out.append("%d:%s" % (cid, name_arg(("s", name)) if ok else "b"))
